@@ -1,0 +1,36 @@
+//go:build verif
+
+// Contracts for property C12 (printed values read back), package syntax. Comments only.
+// Vocabulary: /verif/specs/80_codec.smt2 (unitLen, unitStr, ubound, decFrom), 80_codec.spec.
+package syntax
+
+// lexOK(s): what the lexer (grammar rules STR/CHAR: `\\.`) guarantees for every caller: a backslash
+// that starts a unit is followed by at least one byte.
+//@ spec lexOK(s) = forall k in 0..len(s) :: (ubound(s, k) && s[k] == 92) ==> k + 1 < len(s)
+
+// The reader: one escape unit per loop iteration.
+//@ func parseArraiStringFragment(s, validEscapes, indent)
+//@   tags C12, C10
+//@   assigns fresh-only
+//@   modifies sbout
+//@   requires lexOK(s)
+//@   ensures[C12] dec: !(len(validEscapes) >= 1 && validEscapes[0] == 96) ==> sbout == decFrom(old(sbout), s, indent, len(s))
+//@   ensures[C12] res: !(len(validEscapes) >= 1 && validEscapes[0] == 96) ==> result == sbout
+//@   loop 0 invariant bounds: 0 <= i && i <= len(s)
+//@   loop 0 invariant boundary: ubound(s, i)
+//@   loop 0 invariant out: sbout == decFrom(old(sbout), s, indent, i)
+//@   loop 0 step[C12] unit: next_i == i + unitLen(s, i)     // one unit per iteration, for-post-statement included
+//@   loop 0 decreases len(s) - i
+
+// number(i, size, base): decode size digits at s[i:], append the code point, return the index after them.
+//@ func parseArraiStringFragment$1(i, size, base)
+//@   tags C12, C10
+//@   assigns fresh-only
+//@   modifies sbout
+//@   requires bounds: 0 <= i && 0 <= size && i + size <= len(s)
+//@   requires base == 8 || base == 16
+//@   requires bits: pow2n(size * base / 4) > 0
+//@   requires digits: size > 0 && numOK(s[i:i+size], base)
+//@   requires fits: numVal(s[i:i+size], base) < pow2n(size * base / 4)
+//@   ensures result == i + size
+//@   ensures sbout == sconcat(old(sbout), utf8enc(numVal(s[i:i+size], base)))
